@@ -290,7 +290,10 @@ def run_impl(sk, ops, tmp, keypath, environ=None, tape=None):
                     cfg.validate()
                 elif k == "cmdline":
                     parser = cc.generate_argparse_parser(schema)
-                    args = parser.parse_args(op["argv"])
+                    try:
+                        args = parser.parse_args(op["argv"])
+                    except SystemExit:                     # argparse's way of rejecting a command line
+                        raise ValueError("the generated parser rejected the command line")
                     cc.cmdline_args_override(cfg, args, ignore=op["ignore"])
                 elif k == "validate_collect":
                     errs = cfg.validate(collect_errors=True)
